@@ -476,7 +476,12 @@ class Parser:
         expanded = expr
 
         # TODO: check that only numbers and operators are left in expression
-        value = eval(expr)
+        try:
+            value = eval(expr)
+        except ZeroDivisionError:
+            raise ExpressionExpansionError(
+                f"Division by zero in expression {name} -> {expr}: {self.current_file}"
+            )
 
         return expanded, value
 
